@@ -1,5 +1,5 @@
 //@append src/db.rs
-//@covers TxInner_check
+//@covers TxInner_check Leaf_from_leaf Node_from_page Page_leaf_elements
 // Bounded, executable version of the contract of TxInner::check (unit check: Ok only if every page below the high-water mark
 // is accounted for exactly once, types and kinds known): healthy files with a multi-level tree, a nested bucket, a value
 // spanning several pages and a non-empty free list are DAMAGED structurally (the header checksum does not cover tree or
@@ -68,6 +68,77 @@ mod verif_cex_checker {
                     Ok(Err(_)) => {}
                     Err(_) => { println!("CEX TxInner::check (C05 / no panic): history: healthy file at page size {}, then damaged: {}: DB::check() panics instead of answering an error", ps, what); panic!("check-panics"); }
                 }
+            }
+            let _ = std::fs::remove_file(&p);
+        }
+    }
+
+    // ---- C15: bytes the pinned layout leaves unassigned (padding behind the one-byte page type and the one-byte entry kind)
+    // carry no meaning: files written by the pinned release hold arbitrary values there.  Scribbling over them must change
+    // nothing: same contents, check() passes, further commits work
+    #[test]
+    fn cex_padding_bytes_carry_no_meaning() {
+        use crate::Data;
+        for &ps in &[1024u64, 4096] {
+            let p = std::env::temp_dir().join(format!("jammdb-cex-padding-{}-{}.db", ps, std::process::id()));
+            let _ = std::fs::remove_file(&p);
+            let root;
+            let read = |db: &DB| -> Vec<(Vec<u8>, Vec<u8>)> {
+                let tx = db.tx(false).unwrap();
+                let b = tx.get_bucket("b").unwrap();
+                let mut out: Vec<(Vec<u8>, Vec<u8>)> = b.cursor().map(|d| match d { Data::KeyValue(kv) => (kv.key().to_vec(), kv.value().to_vec()), Data::Bucket(n) => (n.name().to_vec(), b"<bucket>".to_vec()) }).collect();
+                let nb = b.get_bucket("nested").unwrap();
+                out.extend(nb.cursor().map(|d| match d { Data::KeyValue(kv) => (kv.key().to_vec(), kv.value().to_vec()), Data::Bucket(n) => (n.name().to_vec(), vec![]) }));
+                out
+            };
+            let before;
+            {
+                let db: DB = OpenOptions::new().pagesize(ps).open(&p).unwrap();
+                {
+                    let tx = db.tx(true).unwrap();
+                    let b = tx.create_bucket("b").unwrap();
+                    for i in 0..150u32 { b.put(format!("key{:05}", i), vec![b'v'; 90]).unwrap(); }
+                    b.put("big", vec![b'B'; (ps * 2 + 17) as usize]).unwrap();
+                    let nb = b.create_bucket("nested").unwrap();
+                    for i in 0..30u32 { nb.put(format!("n{:03}", i), vec![b'n'; 60]).unwrap(); }
+                    tx.commit().unwrap();
+                }
+                { let tx = db.tx(true).unwrap(); let b = tx.get_bucket("b").unwrap(); for i in 0..20u32 { b.delete(format!("key{:05}", i)).unwrap(); } tx.commit().unwrap(); }
+                before = read(&db);
+                root = db.inner.meta().unwrap().root.root_page;
+            }
+            let mut bytes = std::fs::read(&p).unwrap();
+            let psz = ps as usize;
+            let mut stack = vec![root];
+            let mut touched = 0usize;
+            while let Some(id) = stack.pop() {
+                let o = id as usize * psz;
+                let ty = bytes[o + 8]; let count = rd64(&bytes, o + 16) as usize;
+                for k in 9..16 { bytes[o + k] = 0x5A; touched += 1; }
+                if ty == Page::TYPE_BRANCH { for i in 0..count { stack.push(rd64(&bytes, o + 32 + i * 24)); } }
+                if ty == Page::TYPE_LEAF {
+                    for i in 0..count {
+                        let e = o + 32 + i * 32;
+                        if bytes[e] == 1 { let pos = rd64(&bytes, e + 8) as usize; let ks = rd64(&bytes, e + 16) as usize; stack.push(rd64(&bytes, e + pos + ks)); }
+                        for k in 1..8 { bytes[e + k] = 0xA5; touched += 1; }
+                    }
+                }
+            }
+            std::fs::write(&p, &bytes).unwrap();
+            let what = format!("history: healthy file at page size {} (multi-level bucket, nested bucket, a value of three pages), then the {} PADDING bytes behind every page type and every entry kind are overwritten with 0x5A / 0xA5", ps, touched);
+            let r = std::panic::catch_unwind(|| {
+                let db = OpenOptions::new().pagesize(ps).open(&p).map_err(|e| format!("open fails: {:?}", e))?;
+                db.check().map_err(|e| format!("DB::check() fails: {:?}", e))?;
+                let now = read(&db);
+                { let tx = db.tx(true).map_err(|e| format!("{:?}", e))?; tx.get_bucket("b").map_err(|e| format!("{:?}", e))?.put("after", "x").map_err(|e| format!("{:?}", e))?; tx.commit().map_err(|e| format!("a further commit fails: {:?}", e))?; }
+                db.check().map_err(|e| format!("DB::check() fails after a further commit: {:?}", e))?;
+                Ok::<_, String>(now)
+            });
+            match r {
+                Ok(Ok(now)) if now == before => {}
+                Ok(Ok(now)) => { println!("CEX C15 (padding carries no meaning): {}: the contents differ ({} entries before, {} now)", what, before.len(), now.len()); panic!("padding-contents"); }
+                Ok(Err(e)) => { println!("CEX C15 (padding carries no meaning): {}: {}", what, e); panic!("padding-err"); }
+                Err(_) => { println!("CEX C15 (padding carries no meaning): {}: the library panics", what); panic!("padding-panic"); }
             }
             let _ = std::fs::remove_file(&p);
         }
